@@ -166,6 +166,40 @@ def field_index(struct, field):
 
 
 # ---------------------------------------------------------------- solver protocol
+
+def _viol_terms(viol):
+    out = []
+    for v in viol or []:
+        if isinstance(v, (tuple, list)) and v:
+            v = v[0]
+        if isinstance(v, z3.ExprRef):
+            out.append(v)
+        elif v is True:
+            out.append(z3.BoolVal(True))
+    return out
+
+
+def violation_reachable(viol, timeout_s=20):
+    qs = _viol_terms(viol)
+    if not qs:
+        return False
+    s = z3.Solver()
+    s.set("timeout", int(timeout_s * 1000))
+    s.add(z3.Or(*qs))
+    return s.check() == z3.sat
+
+
+def live_reach(viol, reach, bad=None):
+    """Vacuity guard that does not hide a violation: the expected cases (reach: dict of lists, or one list) must all be reachable for a *pass*;
+    but when a violation is satisfiable it is reported even if the code no longer has one of the expected cases at all (a changed tree may have lost it).
+    Returns the list of case lists to hand to decide(); an empty member means 'vacuous'."""
+    cases = list(reach.values()) if isinstance(reach, dict) else [reach]
+    if bad or all(cases):
+        return cases
+    if violation_reachable(viol):
+        return [c for c in cases if c] or [[z3.BoolVal(True)]]
+    return cases
+
 class Result(dict):
     pass
 
